@@ -44,6 +44,7 @@ type c19Case struct {
 	HealthSvc string   `json:"health_service,omitempty"`
 	Status    int32    `json:"serving_status,omitempty"`
 	WS        bool     `json:"websocket,omitempty"`
+	Pre       int      `json:"own_health_rules,omitempty"` // 0 none, 1 the owner's alias rules before AddHealthz, 2 after it, 3 a Check rule with an additional binding before it
 }
 
 type c19Svc struct {
@@ -261,9 +262,32 @@ func (e *c19Env) execHealthz(tc *c19Case) (oracle, note string) {
 		rl.Pattern = &annotations.HttpRule_Get{Get: "/edited/by/the/other/owner"}
 		rl.AdditionalBindings = append(rl.AdditionalBindings, &annotations.HttpRule{Pattern: &annotations.HttpRule_Get{Get: "/livez"}})
 	}
+	// the owner's own rules for the health methods (a short alias for a load balancer, say) live in
+	// the same config next to the ones AddHealthz contributes: both sets are served
+	alias := func() []*annotations.HttpRule {
+		return []*annotations.HttpRule{
+			{Selector: "grpc.health.v1.Health.Check", Pattern: &annotations.HttpRule_Get{Get: "/healthz"}},
+			{Selector: "grpc.health.v1.Health.Watch", Pattern: &annotations.HttpRule_Custom{Custom: &annotations.CustomHttpPattern{Kind: "WEBSOCKET", Path: "/watchz"}}},
+		}
+	}
 	sc := &serviceconfig.Service{}
+	httpPaths, wsPaths := []string{"/v1/healthz", "/grpc.health.v1.Health/Check"}, []string{"/v1/healthz"}
+	switch tc.Pre {
+	case 1:
+		sc.Http = &annotations.Http{Rules: alias()}
+	case 3:
+		sc.Http = &annotations.Http{Rules: []*annotations.HttpRule{{Selector: "grpc.health.v1.Health.Check", Pattern: &annotations.HttpRule_Get{Get: "/livez"},
+			AdditionalBindings: []*annotations.HttpRule{{Pattern: &annotations.HttpRule_Get{Get: "/readyz"}}}}}}
+		httpPaths = append(httpPaths, "/livez", "/readyz")
+	}
 	health.AddHealthz(sc)
 	health.AddHealthz(sc) // twice on the same config: harmless
+	if tc.Pre == 2 {
+		sc.Http.Rules = append(sc.Http.Rules, alias()...)
+	}
+	if tc.Pre == 1 || tc.Pre == 2 {
+		httpPaths, wsPaths = append(httpPaths, "/healthz"), append(wsPaths, "/watchz")
+	}
 	m, err := larking.NewMux(larking.ServiceConfigOption(sc))
 	if err != nil {
 		return "harness", err.Error()
@@ -276,10 +300,13 @@ func (e *c19Env) execHealthz(tc *c19Case) (oracle, note string) {
 	if tc.HealthSvc != "" {
 		q.Set("service", tc.HealthSvc)
 	}
-	if tc.WS {
+	for _, path := range wsPaths {
+		if !tc.WS {
+			break
+		}
 		ctx, cancel := context.WithCancel(context.Background())
 		defer cancel()
-		res := doWSPrep(m, "/v1/healthz", q.Encode(), nil, wsText([]byte(`{}`)), nil, func(c *env.Conn, r *http.Request) *http.Request {
+		res := doWSPrep(m, path, q.Encode(), nil, wsText([]byte(`{}`)), nil, func(c *env.Conn, r *http.Request) *http.Request {
 			c.OnWrite = func(n int) {
 				if n >= 2 { // the 101 response, then the first status message
 					cancel()
@@ -292,7 +319,7 @@ func (e *c19Env) execHealthz(tc *c19Case) (oracle, note string) {
 			return "panic", res.Panic
 		}
 		if !res.Upgraded {
-			return "healthz-ws-no-upgrade", fmt.Sprintf("HTTP %d", res.HTTPCode)
+			return "healthz-ws-no-upgrade", fmt.Sprintf("%s: HTTP %d", path, res.HTTPCode)
 		}
 		if len(res.Msgs) < 1 {
 			return "healthz-ws-no-status", fmt.Sprintf("no status message; close=%+v", res.Status)
@@ -306,11 +333,13 @@ func (e *c19Env) execHealthz(tc *c19Case) (oracle, note string) {
 			wantWatch = want.Status
 		}
 		if got.Status != wantWatch {
-			return "healthz-ws-status", fmt.Sprintf("service %q: watch over WebSocket says %v, health server says %v", tc.HealthSvc, got.Status, wantWatch)
+			return "healthz-ws-status", fmt.Sprintf("service %q: watch over WebSocket at %s says %v, health server says %v", tc.HealthSvc, path, got.Status, wantWatch)
 		}
+	}
+	if tc.WS {
 		return "", "ws-ok"
 	}
-	for _, path := range []string{"/v1/healthz", "/grpc.health.v1.Health/Check"} {
+	for _, path := range httpPaths {
 		sr := serveSimple(m, "GET", path, q.Encode())
 		if sr.Panicked {
 			return "panic", sr.Panic
@@ -395,7 +424,9 @@ func c19Cases(svcs []c19Svc, thorough bool) []c19Case {
 	for _, name := range []string{"", "a", "a.b.C", "with space/é"} {
 		for _, st := range []int32{-1, 0, 1, 2, 3} {
 			for _, ws := range []bool{false, true} {
-				out = append(out, c19Case{Kind: "healthz", HealthSvc: name, Status: st, WS: ws})
+				for pre := 0; pre <= 3; pre++ {
+					out = append(out, c19Case{Kind: "healthz", HealthSvc: name, Status: st, WS: ws, Pre: pre})
+				}
 			}
 		}
 	}
@@ -404,7 +435,7 @@ func c19Cases(svcs []c19Svc, thorough bool) []c19Case {
 
 func runC19(c *Ctx) {
 	r := c.Run
-	r.Rule("selector lists of length <= 2 (thorough: <= 3) over {every component prefix of a.S.M, a.Sx.M, a.b.S.M, ab.S.M, a.D.M, a.D.Mx and unrelated names, each plain and with '.*'; '*'; case variants; a wildcard below a method} × each of 7 services (packages a, a.b, ab; services S, Sx, D) registered alone on a fresh mux, every selector with its own path; equivalence of service-config and annotation binding for every template of the reduced alphabet (<= 2 segments, thorough <= 3) × kinds × body selectors over the near-miss probe set; a service-config rule (4 selectors) on a method that also carries an annotation on the same path and verb: the config rule's body mapping and additional bindings and the annotation's additional binding all work; healthz for service names × serving statuses over GET (both routes) and WebSocket watch; distinct = (kind, service, selector set / rule / health case)")
+	r.Rule("selector lists of length <= 2 (thorough: <= 3) over {every component prefix of a.S.M, a.Sx.M, a.b.S.M, ab.S.M, a.D.M, a.D.Mx and unrelated names, each plain and with '.*'; '*'; case variants; a wildcard below a method} × each of 7 services (packages a, a.b, ab; services S, Sx, D) registered alone on a fresh mux, every selector with its own path; equivalence of service-config and annotation binding for every template of the reduced alphabet (<= 2 segments, thorough <= 3) × kinds × body selectors over the near-miss probe set; a service-config rule (4 selectors) on a method that also carries an annotation on the same path and verb: the config rule's body mapping and additional bindings and the annotation's additional binding all work; healthz for service names × serving statuses over GET (both routes) and WebSocket watch × {no rules of the owner's own for the health methods, alias rules before AddHealthz, after it, a Check rule with an additional binding before it: every alias and /v1/healthz are served}; distinct = (kind, service, selector set / rule / health case)")
 	r.Assume("selector lists under which one path would be bound to two methods of the registered service are skipped (a conflict by construction)", "invalid selectors ('*' not last) are not explored")
 	svcs := c19Services()
 	cases := c19Cases(svcs, c.Thorough())
